@@ -21,7 +21,7 @@ def generate(api):
     rs = api.rs2coq
     out = [api.HEADER, PRELUDE]
     cfg = dict(BASE_CFG)
-    cfg['methods'] = dict(BASE_CFG['methods'], round='xq_round', unwrap_or='xq_unwrap_or_x', width='xq_sz_w', height='xq_sz_h')
+    cfg['methods'] = dict(BASE_CFG['methods'], is_nan='xq_is_nan', round='xq_round', unwrap_or='xq_unwrap_or_x', width='xq_sz_w', height='xq_sz_h')
     cfg['calls'] = dict(BASE_CFG['calls'], **{'PositiveF32::new': 'xq_positive_new', 'Some': 'Some'})
     cfg['paths'] = dict(BASE_CFG['paths'], **{'PositiveF32::ZERO': 'XQ_POSITIVE_ZERO'})
 
